@@ -49,9 +49,22 @@ type tokSpec struct {
 // cfgSpec describes one authenticator configuration by labels.
 type cfgSpec struct {
 	Server         string   `json:"server"`   // s1: JWKS {k1}, no alg/use members; s2: JWKS {k1,k2}, alg RS256 + use sig
-	Aliases        []string `json:"aliases"`  // alias1 | alias2 | empty
-	Subjects       []string `json:"subjects"` // allowed | allowed2 | empty ; none = not configured
+	Aliases        []string `json:"aliases"`  // entries: alias1 | alias2 | empty ("") | space (" "); null = nil slice, [] = empty non-nil slice
+	Subjects       []string `json:"subjects"` // entries: allowed | allowed2 | empty ("") | space (" "); null / [] = not configured
 	ClientIDClaims []string `json:"client_id_claims,omitempty"`
+	Audience       string   `json:"audience,omitempty"` // "" = aud-main | empty ("") | space (" ")
+}
+
+func (c cfgSpec) audienceValue() string {
+	switch c.Audience {
+	case "":
+		return audConfigured
+	case "empty":
+		return ""
+	case "space":
+		return " "
+	}
+	panic("audience label " + c.Audience)
 }
 
 type oidcCase struct {
@@ -66,8 +79,32 @@ const (
 	clientIDValue = "client-7"
 )
 
-var aliasValue = map[string]string{"alias1": "https://alias-one.example/", "alias2": "https://alias-two.example", "empty": ""}
-var subjectValue = map[string]string{"allowed": "sub-ok", "allowed2": "sub-ok2", "empty": ""}
+var aliasValue = map[string]string{"alias1": "https://alias-one.example/", "alias2": "https://alias-two.example", "empty": "", "space": " "}
+var subjectValue = map[string]string{"allowed": "sub-ok", "allowed2": "sub-ok2", "empty": "", "space": " "}
+
+// the entry alphabets of the two allow-lists: the strictly empty string, a white-space-only string (an ordinary
+// name: StringOrURI values may be any non-empty string) and two real names
+var (
+	aliasEntries   = []string{"empty", "space", "alias1", "alias2"}
+	subjectEntries = []string{"empty", "space", "allowed", "allowed2"}
+)
+
+// blankKind classifies a configured list by its strictly empty entries: "" (none), "only-empty", "empty-among-others".
+func blankKind(list []string) string {
+	n := 0
+	for _, x := range list {
+		if x == "empty" {
+			n++
+		}
+	}
+	switch {
+	case n == 0:
+		return ""
+	case n == len(list):
+		return "only-empty"
+	}
+	return "empty-among-others"
+}
 
 func (c cfgSpec) key() string { b, _ := json.Marshal(c); return string(b) }
 
@@ -174,14 +211,16 @@ func (e *env) auth(c cfgSpec) (*oidc.RemoteOidcAuthenticator, error) {
 	if is == nil {
 		return nil, fmt.Errorf("unknown issuer %q", c.Server)
 	}
+	// the lists reach the constructor exactly as configured: nil stays nil, an empty list stays an empty non-nil
+	// slice, blank entries are passed on verbatim
 	var aliases, subjects []string
-	if len(c.Aliases) > 0 {
+	if c.Aliases != nil {
 		aliases = c.aliasValues()
 	}
-	if len(c.Subjects) > 0 {
+	if c.Subjects != nil {
 		subjects = c.subjectValues()
 	}
-	a, err := oidc.NewRemoteOidcAuthenticator(is.srv.URL, aliases, audConfigured, subjects, c.ClientIDClaims)
+	a, err := oidc.NewRemoteOidcAuthenticator(is.srv.URL, aliases, c.audienceValue(), subjects, c.ClientIDClaims)
 	if err != nil {
 		return nil, fmt.Errorf("NewRemoteOidcAuthenticator(%s): %w", c.key(), err)
 	}
@@ -230,6 +269,10 @@ func (e *env) claims(is *issuer, t tokSpec) map[string]any {
 	case "other":
 		c["aud"] = "aud-other"
 	case "absent":
+	case "empty":
+		c["aud"] = ""
+	case "space":
+		c["aud"] = " "
 	case "list-with":
 		c["aud"] = []string{"aud-other", audConfigured}
 	case "list-without":
@@ -248,7 +291,7 @@ func (e *env) claims(is *issuer, t tokSpec) map[string]any {
 	switch t.Iss {
 	case "main":
 		c["iss"] = is.srv.URL
-	case "alias1", "alias2":
+	case "alias1", "alias2", "space":
 		c["iss"] = aliasValue[t.Iss]
 	case "other":
 		c["iss"] = "https://evil.example/"
@@ -261,7 +304,7 @@ func (e *env) claims(is *issuer, t tokSpec) map[string]any {
 		panic("iss label " + t.Iss)
 	}
 	switch t.Sub {
-	case "allowed", "allowed2":
+	case "allowed", "allowed2", "space":
 		c["sub"] = subjectValue[t.Sub]
 	case "other":
 		c["sub"] = "sub-bad"
@@ -355,9 +398,16 @@ func has(list []string, s string) bool {
 	return false
 }
 
-// failedRules returns the rules of the statement that the token breaks under the configuration.
-func failedRules(is *issuer, cfg cfgSpec, t tokSpec) []string {
-	var f []string
+// failedRules returns the rules of the statement that the token breaks under the configuration. undetermined is set
+// when the only question left open by the statement is whether an empty-string claim "names" an empty-string list
+// entry (iss "" against an alias "", sub "" against a subject ""): the reference then demands nothing for that rule.
+//
+// The two allow-lists are read on the labels of the configured lists, exactly as handed to the constructor:
+//   - subjects are "configured" as soon as the list has at least one entry, whatever the entries are (a list made only
+//     of blank entries is a configured allow-list that no subject is on, not an absent one);
+//   - a claim names an entry when the claim is present, is a string and is byte-wise equal to the entry; an absent
+//     claim names nothing; a white-space-only entry is an ordinary name.
+func failedRules(is *issuer, cfg cfgSpec, t tokSpec) (f []string, undetermined bool) {
 	if t.Alg != "RS256" {
 		f = append(f, "alg")
 	}
@@ -377,17 +427,30 @@ func failedRules(is *issuer, cfg cfgSpec, t tokSpec) []string {
 	case "future", "future-far", "future-frac":
 		f = append(f, "iat")
 	}
-	switch t.Aud {
-	case "configured", "list-with", "list-single":
-	default:
+	audOK := false
+	switch cfg.Audience {
+	case "":
+		audOK = t.Aud == "configured" || t.Aud == "list-with" || t.Aud == "list-single"
+	case "space":
+		audOK = t.Aud == "space"
+	case "empty": // an authenticator without an audience (if the constructor hands one out at all): nothing names it
+		if t.Aud == "empty" {
+			audOK, undetermined = true, true
+		}
+	}
+	if !audOK {
 		f = append(f, "aud")
 	}
 	issOK := false
 	switch t.Iss {
 	case "main":
 		issOK = true
-	case "alias1", "alias2", "empty":
+	case "alias1", "alias2", "space":
 		issOK = has(cfg.Aliases, t.Iss)
+	case "empty":
+		if has(cfg.Aliases, "empty") {
+			issOK, undetermined = true, true
+		}
 	}
 	if !issOK {
 		f = append(f, "iss")
@@ -395,19 +458,23 @@ func failedRules(is *issuer, cfg cfgSpec, t tokSpec) []string {
 	if len(cfg.Subjects) > 0 {
 		subOK := false
 		switch t.Sub {
-		case "allowed", "allowed2", "empty":
+		case "allowed", "allowed2", "space":
 			subOK = has(cfg.Subjects, t.Sub)
+		case "empty":
+			if has(cfg.Subjects, "empty") {
+				subOK, undetermined = true, true
+			}
 		}
 		if !subOK {
 			f = append(f, "sub")
 		}
 	}
-	return f
+	return f, undetermined
 }
 
 func expectedSubject(t tokSpec) string {
 	switch t.Sub {
-	case "allowed", "allowed2":
+	case "allowed", "allowed2", "space":
 		return subjectValue[t.Sub]
 	case "other":
 		return "sub-bad"
@@ -450,6 +517,9 @@ func expectedClientID(cfg cfgSpec, t tokSpec) string {
 
 type oidcCounters struct {
 	cases, expectedAccept, oneRule, multiRule, middleware atomic.Int64
+	// the allow-list dimension
+	blankCfg, onlyBlankSubjects, onlyBlankSubjectsElseValid, onlyBlankAliases, blankAmongReal, spaceEntry, undetermined atomic.Int64
+	emptyListCfg                                                                                                        atomic.Int64
 }
 
 var oc oidcCounters
@@ -470,7 +540,7 @@ func (e *env) evalOIDC(r *core.Report, c *oidcCase, tok string, a *oidc.RemoteOi
 	if tok == "" {
 		tok = e.token(is, c.Tok)
 	}
-	failed := failedRules(is, c.Cfg, c.Tok)
+	failed, undetermined := failedRules(is, c.Cfg, c.Tok)
 	want := len(failed) == 0
 	kind := "oidc"
 	ctx := bearerCtx("Bearer " + tok)
@@ -516,8 +586,33 @@ func (e *env) evalOIDC(r *core.Report, c *oidcCase, tok string, a *oidc.RemoteOi
 	}
 	r.Eval(1)
 	oc.cases.Add(1)
-	if want {
+	if want && !undetermined {
 		oc.expectedAccept.Add(1)
+	}
+	if undetermined {
+		oc.undetermined.Add(1)
+	}
+	bkS, bkA := blankKind(c.Cfg.Subjects), blankKind(c.Cfg.Aliases)
+	if bkS != "" || bkA != "" {
+		oc.blankCfg.Add(1)
+	}
+	if bkS == "only-empty" {
+		oc.onlyBlankSubjects.Add(1)
+		if len(failed) == 1 && failed[0] == "sub" { // the token is fine in every other respect: the allow-list alone decides
+			oc.onlyBlankSubjectsElseValid.Add(1)
+		}
+	}
+	if bkA == "only-empty" {
+		oc.onlyBlankAliases.Add(1)
+	}
+	if bkS == "empty-among-others" || bkA == "empty-among-others" {
+		oc.blankAmongReal.Add(1)
+	}
+	if has(c.Cfg.Subjects, "space") || has(c.Cfg.Aliases, "space") {
+		oc.spaceEntry.Add(1)
+	}
+	if c.Cfg.Subjects != nil && len(c.Cfg.Subjects) == 0 || c.Cfg.Aliases != nil && len(c.Cfg.Aliases) == 0 {
+		oc.emptyListCfg.Add(1)
 	}
 	if len(failed) <= 1 {
 		if len(failed) == 1 {
@@ -531,25 +626,35 @@ func (e *env) evalOIDC(r *core.Report, c *oidcCase, tok string, a *oidc.RemoteOi
 	rc := replayCase{Kind: kind, OIDC: c}
 	desc := func(what string) string {
 		tj, _ := json.Marshal(c.Tok)
-		return fmt.Sprintf("%s: config=%s token=%s header=%q rules broken=%v; reference accept=%v, Authenticate accept=%v (err=%v)", what, c.Cfg.key(), tj, c.HeaderForm, failed, want, got, aerr)
+		return fmt.Sprintf("%s: config=%s (aliases=%q subjects=%q) token=%s header=%q rules broken=%v; reference accept=%v, Authenticate accept=%v (err=%v)", what, c.Cfg.key(), c.Cfg.aliasValues(), c.Cfg.subjectValues(), tj, c.HeaderForm, failed, want, got, aerr)
 	}
 	switch {
 	case got && !want:
 		sig := "oidc-accepts-invalid/" + strings.Join(failed, "+")
-		if has(failed, "iss") && has(c.Cfg.Aliases, "empty") {
-			sig += "/empty-alias-configured"
+		if has(failed, "iss") {
+			switch bkA {
+			case "only-empty":
+				sig += "/only-empty-aliases-configured"
+			case "empty-among-others":
+				sig += "/empty-alias-configured"
+			}
 		}
-		if has(failed, "sub") && has(c.Cfg.Subjects, "empty") {
-			sig += "/empty-subject-configured"
+		if has(failed, "sub") {
+			switch bkS {
+			case "only-empty":
+				sig += "/only-empty-subjects-configured"
+			case "empty-among-others":
+				sig += "/empty-subject-configured"
+			}
 		}
 		violate(c.Order, sig, desc("accepted a token that breaks the statement"), rc)
-	case !got && want:
+	case !got && want && !undetermined:
 		violate(c.Order, "oidc-rejects-valid", desc("rejected a token that satisfies every rule of the statement"), rc)
 	}
 	if (merr == nil) != got {
 		violate(c.Order, "middleware-disagrees-with-authenticator", desc(fmt.Sprintf("AuthFunc err=%v", merr)), rc)
 	}
-	if got && want {
+	if got && want { // (also for the undetermined cases that the implementation chose to accept)
 		wantSub, wantCID := expectedSubject(c.Tok), expectedClientID(c.Cfg, c.Tok)
 		check := func(where string, cl *authclaims.AuthClaims) {
 			if cl == nil {
@@ -575,13 +680,18 @@ func (e *env) evalOIDC(r *core.Report, c *oidcCase, tok string, a *oidc.RemoteOi
 	if !got && merr != nil && mctx != nil {
 		violate(c.Order, "middleware-returns-context-on-reject", desc("AuthFunc returned a context together with an error"), rc)
 	}
-	if c.HeaderForm == "" && c.Cfg.Server == "s1" && len(c.Cfg.Subjects) == 1 && len(c.Cfg.Aliases) == 1 && len(c.Cfg.ClientIDClaims) == 0 && c.Tok.CID == "azp" {
+	if c.HeaderForm == "" && c.Cfg.Server == "s1" && len(c.Cfg.Aliases) == 1 && c.Cfg.Aliases[0] == "alias1" && bkS == "only-empty" && len(failed) == 1 &&
+		c.Tok.Sub == "other" && c.Tok.Iss == "main" && c.Tok.Aud == "configured" && c.Tok.Iat == "past" && c.Tok.CID == "azp" {
+		sampleOnce(r, "oidc/only-empty-subject-list", map[string]any{"kind": "oidc", "config": c.Cfg, "subjects_passed_to_constructor": c.Cfg.subjectValues(),
+			"token": c.Tok, "rules_broken": failed, "reference_accept": want, "authenticate_accept": got})
+	}
+	if c.HeaderForm == "" && c.Cfg.Server == "s1" && len(c.Cfg.Subjects) == 1 && c.Cfg.Subjects[0] == "allowed" && len(c.Cfg.Aliases) == 1 && c.Cfg.Aliases[0] == "alias1" && len(c.Cfg.ClientIDClaims) == 0 && c.Tok.CID == "azp" {
 		class := ""
 		switch {
 		case want && c.Tok.Iss == "alias1" && c.Tok.Aud == "list-with" && c.Tok.Iat == "absent":
 			class = "oidc/accept"
 		case len(failed) == 1 && c.Tok.Iss == "main" && c.Tok.Aud == "configured" && c.Tok.Iat == "past" &&
-			(failed[0] == "alg" && c.Tok.Alg == "HS256" || failed[0] == "exp" && c.Tok.Exp == "absent" || failed[0] == "tamper" || failed[0] == "sub" && c.Tok.Sub == "absent"):
+			(failed[0] == "alg" && c.Tok.Alg == "HS256" || failed[0] == "sub" && c.Tok.Sub == "absent"): // (six sample slots: 2 psk + 4 oidc classes)
 			class = "oidc/only-" + failed[0]
 		}
 		if class != "" {
@@ -622,8 +732,8 @@ func oidcDims(thorough bool) dims {
 		exp: []string{"absent", "past", "future"},
 		iat: []string{"absent", "past", "future"},
 		aud: []string{"configured", "other", "absent", "list-with"},
-		iss: []string{"main", "alias1", "other", "absent"},
-		sub: []string{"allowed", "other", "absent"},
+		iss: []string{"main", "alias1", "other", "absent", "alias2", "empty", "space"},
+		sub: []string{"allowed", "other", "absent", "allowed2", "empty", "space"},
 	}
 	if thorough {
 		d.sig = append(d.sig, "k2")
@@ -631,37 +741,149 @@ func oidcDims(thorough bool) dims {
 		d.exp = append(d.exp, "past-far", "future-far", "future-frac", "zero", "string-future")
 		d.iat = append(d.iat, "future-far", "past-frac", "zero")
 		d.aud = append(d.aud, "list-without", "list-single", "list-empty", "prefix", "superstring")
-		d.iss = append(d.iss, "alias2", "main-slash", "empty")
-		d.sub = append(d.sub, "allowed2", "prefix", "empty")
+		d.iss = append(d.iss, "main-slash")
+		d.sub = append(d.sub, "prefix")
 	}
 	return d
 }
 
+// fullProductKeys: the configurations that are crossed with the FULL token product. quick: the two plain ones and four
+// blank-entry ones; thorough: in addition both issuers x 0/1/2 real aliases x 0/1/2 real subjects. Every other
+// configuration of the allow-list dimension is crossed with the full iss x sub product times every combination of the
+// remaining dimensions (sig, alg, kid, exp, iat, aud) in which AT MOST ONE of them has a label outside its plain-valid
+// set (offValidDims <= 1).
+func fullProductKeys(thorough bool) map[string]bool {
+	full := map[string]bool{}
+	for _, p := range [][2][]string{
+		{{"alias1"}, {}}, {{"alias1"}, {"allowed"}},
+		{{"alias1"}, {"empty"}}, {{"alias1"}, {"empty", "allowed"}}, {{"empty"}, {"allowed"}}, {{"alias1", "empty"}, {"allowed"}},
+	} {
+		full[cfgSpec{Server: "s1", Aliases: p[0], Subjects: p[1]}.key()] = true
+	}
+	if thorough {
+		for _, srv := range []string{"s1", "s2"} {
+			for _, al := range [][]string{{}, {"alias1"}, {"alias1", "alias2"}} {
+				for _, su := range [][]string{{}, {"allowed"}, {"allowed", "allowed2"}} {
+					full[cfgSpec{Server: srv, Aliases: al, Subjects: su}.key()] = true
+				}
+			}
+		}
+	}
+	return full
+}
+
+// offValidDims counts, on the labels alone, in how many of the dimensions other than iss and sub the token differs
+// from a plain valid token (signed by k1 with kid k1, RS256, exp in the future, iat absent or past, aud naming the
+// configured audience). It only steers the enumeration; verdicts come from failedRules.
+func offValidDims(t tokSpec) int {
+	n := 0
+	if t.Sig != "k1" {
+		n++
+	}
+	if t.Alg != "RS256" {
+		n++
+	}
+	if t.Kid != "k1" {
+		n++
+	}
+	switch t.Exp {
+	case "future", "future-far", "future-frac":
+	default:
+		n++
+	}
+	switch t.Iat {
+	case "future", "future-far", "future-frac":
+		n++
+	}
+	switch t.Aud {
+	case "configured", "list-with", "list-single":
+	default:
+		n++
+	}
+	return n
+}
+
+// entryLists returns every ordered list of 1..maxLen entries over the alphabet (repetitions included), preceded by the
+// two spellings of "nothing configured": a nil slice and an empty non-nil slice.
+func entryLists(alpha []string, maxLen int) [][]string {
+	out := [][]string{nil, {}}
+	level := [][]string{{}}
+	for n := 1; n <= maxLen; n++ {
+		var next [][]string
+		for _, l := range level {
+			for _, a := range alpha {
+				next = append(next, append(append([]string{}, l...), a))
+			}
+		}
+		out = append(out, next...)
+		level = next
+	}
+	return out
+}
+
+// oidcConfigs: the first two configurations are the plain ones (also used by the side sweeps). Then the allow-list
+// dimension: EVERY subject list of <= 2 entries over {"", " ", sub-ok, sub-ok2} (and nil / empty list) under the plain
+// alias list; EVERY alias list of <= 2 entries over {"", " ", alias-one, alias-two} (and nil / empty list) under no
+// subjects and under one real subject; and blank x blank combinations. thorough adds the second issuer, the lists of
+// three entries and the full product of the lists of <= 1 entry.
 func oidcConfigs(thorough bool) []cfgSpec {
 	out := []cfgSpec{
 		{Server: "s1", Aliases: []string{"alias1"}, Subjects: []string{}},
 		{Server: "s1", Aliases: []string{"alias1"}, Subjects: []string{"allowed"}},
 	}
+	seen := map[string]bool{out[0].key(): true, out[1].key(): true}
+	add := func(c cfgSpec) {
+		if !seen[c.key()] {
+			seen[c.key()] = true
+			out = append(out, c)
+		}
+	}
+	for _, su := range entryLists(subjectEntries, 2) {
+		add(cfgSpec{Server: "s1", Aliases: []string{"alias1"}, Subjects: su})
+	}
+	for _, al := range entryLists(aliasEntries, 2) {
+		add(cfgSpec{Server: "s1", Aliases: al, Subjects: []string{}})
+		add(cfgSpec{Server: "s1", Aliases: al, Subjects: []string{"allowed"}})
+	}
+	for _, al := range [][]string{{"empty"}, {"empty", "alias1"}, {"space"}} {
+		for _, su := range [][]string{{"empty"}, {"empty", "empty"}, {"empty", "allowed"}, {"space"}} {
+			add(cfgSpec{Server: "s1", Aliases: al, Subjects: su})
+		}
+	}
 	if !thorough {
 		return out
 	}
-	seen := map[string]bool{out[0].key(): true, out[1].key(): true}
 	for _, srv := range []string{"s1", "s2"} {
 		for _, al := range [][]string{{}, {"alias1"}, {"alias1", "alias2"}} {
 			for _, su := range [][]string{{}, {"allowed"}, {"allowed", "allowed2"}} {
-				c := cfgSpec{Server: srv, Aliases: al, Subjects: su}
-				if !seen[c.key()] {
-					seen[c.key()] = true
-					out = append(out, c)
-				}
+				add(cfgSpec{Server: srv, Aliases: al, Subjects: su})
+			}
+		}
+		for _, al := range entryLists(aliasEntries, 1) {
+			for _, su := range entryLists(subjectEntries, 1) {
+				add(cfgSpec{Server: srv, Aliases: al, Subjects: su})
 			}
 		}
 	}
-	// degenerate list members: an empty string among the aliases / subjects is still just one more name
-	out = append(out,
-		cfgSpec{Server: "s1", Aliases: []string{"alias1", "empty"}, Subjects: []string{"allowed"}},
-		cfgSpec{Server: "s1", Aliases: []string{"alias1"}, Subjects: []string{"allowed", "empty"}},
-	)
+	// lists of three entries: blank entries before, between and after real ones; only blank entries
+	for _, l := range [][]string{{"empty", "empty", "empty"}, {"empty", "space", "empty"}, {"empty", "REAL1", "empty"}, {"REAL1", "empty", "REAL2"}, {"empty", "empty", "REAL1"}, {"REAL1", "REAL2", "empty"}} {
+		inst := func(r1, r2 string) []string {
+			o := make([]string, len(l))
+			for i, x := range l {
+				switch x {
+				case "REAL1":
+					x = r1
+				case "REAL2":
+					x = r2
+				}
+				o[i] = x
+			}
+			return o
+		}
+		add(cfgSpec{Server: "s1", Aliases: []string{"alias1"}, Subjects: inst("allowed", "allowed2")})
+		add(cfgSpec{Server: "s1", Aliases: inst("alias1", "alias2"), Subjects: []string{"allowed"}})
+		add(cfgSpec{Server: "s2", Aliases: inst("alias1", "alias2"), Subjects: inst("allowed", "allowed2")})
+	}
 	return out
 }
 
@@ -681,6 +903,38 @@ func runOIDC(r *core.Report, thorough bool) error {
 	}
 	r.Set("oidc_token_specs", d.size())
 	r.Set("oidc_configurations", len(cfgs))
+	{
+		subjLists, aliasLists := map[string]bool{}, map[string]bool{}
+		var onlyEmptySubj, onlyEmptyAlias, mixedSubj, mixedAlias int
+		for _, c := range cfgs {
+			sk, ak := fmt.Sprintf("%q/%v", c.Subjects, c.Subjects == nil), fmt.Sprintf("%q/%v", c.Aliases, c.Aliases == nil)
+			if !subjLists[sk] {
+				subjLists[sk] = true
+				switch blankKind(c.Subjects) {
+				case "only-empty":
+					onlyEmptySubj++
+				case "empty-among-others":
+					mixedSubj++
+				}
+			}
+			if !aliasLists[ak] {
+				aliasLists[ak] = true
+				switch blankKind(c.Aliases) {
+				case "only-empty":
+					onlyEmptyAlias++
+				case "empty-among-others":
+					mixedAlias++
+				}
+			}
+		}
+		r.Set("oidc_distinct_subject_lists", len(subjLists))
+		r.Set("oidc_distinct_alias_lists", len(aliasLists))
+		r.Set("oidc_subject_lists_only_empty_entries", onlyEmptySubj)
+		r.Set("oidc_subject_lists_empty_among_other_entries", mixedSubj)
+		r.Set("oidc_alias_lists_only_empty_entries", onlyEmptyAlias)
+		r.Set("oidc_alias_lists_empty_among_other_entries", mixedAlias)
+		r.Set("oidc_allow_list_entry_alphabet", map[string]any{"subjects": []string{"", " ", subjectValue["allowed"], subjectValue["allowed2"]}, "aliases": []string{"", " ", aliasValue["alias1"], aliasValue["alias2"]}})
+	}
 	r.Set("oidc_dimensions", map[string]any{"sig": d.sig, "alg": d.alg, "kid": d.kid, "exp": d.exp, "iat": d.iat, "aud": d.aud, "iss": d.iss, "sub": d.sub})
 	var errMu sync.Mutex
 	var firstErr error
@@ -691,10 +945,30 @@ func runOIDC(r *core.Report, thorough bool) error {
 		}
 		errMu.Unlock()
 	}
+	var nearTokens atomic.Int64
+	fullKeys := fullProductKeys(thorough)
+	full := make([]bool, len(cfgs))
+	nFull := 0
+	for i, c := range cfgs {
+		if full[i] = fullKeys[c.key()]; full[i] {
+			nFull++
+		}
+	}
+	if nFull != len(fullKeys) {
+		return fmt.Errorf("full-product configurations: %d of %d are enumerated", nFull, len(fullKeys))
+	}
+	r.Set("oidc_configurations_full_token_product", nFull)
 	r.Parallel(d.size(), func(i int) {
 		t := d.at(i)
+		near := offValidDims(t) <= 1
+		if near {
+			nearTokens.Add(1)
+		}
 		toks := map[string]string{} // one assembled token per issuer, presented to every configuration of that issuer
 		for ci, c := range cfgs {
+			if !near && !full[ci] {
+				continue
+			}
 			tok, ok := toks[c.Server]
 			if !ok {
 				tok = e.token(e.issuers[c.Server], t)
@@ -705,6 +979,8 @@ func runOIDC(r *core.Report, thorough bool) error {
 			}
 		}
 	})
+
+	r.Set("oidc_token_specs_at_most_one_other_dimension_off", nearTokens.Load())
 
 	// side sweep 1: header forms around one valid and one expired token
 	valid := tokSpec{Sig: "k1", Alg: "RS256", Kid: "k1", Exp: "future", Iat: "past", Aud: "configured", Iss: "main", Sub: "allowed", CID: "azp"}
@@ -729,6 +1005,24 @@ func runOIDC(r *core.Report, thorough bool) error {
 			}
 		}
 	}
+	// side sweep 3: a blank configured audience. The constructor may refuse it (then nothing is ever accepted, which
+	// is fine); if it hands out an authenticator, that authenticator must still demand the audience.
+	var audRefused []string
+	for _, audCfg := range []string{"empty", "space"} {
+		c := cfgSpec{Server: "s1", Aliases: []string{"alias1"}, Subjects: []string{}, Audience: audCfg}
+		if _, err := e.auth(c); err != nil {
+			audRefused = append(audRefused, audCfg)
+			continue
+		}
+		for _, aud := range []string{"configured", "other", "absent", "list-with", "empty", "space"} {
+			for _, exp := range []string{"future", "past"} {
+				t := valid
+				t.Aud, t.Exp = aud, exp
+				side = append(side, &oidcCase{Cfg: c, Tok: t})
+			}
+		}
+	}
+	r.Set("oidc_blank_audience_refused_by_constructor", audRefused)
 	for i, c := range side {
 		c.Order = 1<<50 + int64(i)
 	}
@@ -743,6 +1037,14 @@ func runOIDC(r *core.Report, thorough bool) error {
 	r.Count("oidc_exactly_one_rule_broken", oc.oneRule.Load())
 	r.Count("oidc_several_rules_broken", oc.multiRule.Load())
 	r.Count("oidc_cases_also_through_middleware", oc.middleware.Load())
+	r.Count("oidc_cases_config_has_empty_entry", oc.blankCfg.Load())
+	r.Count("oidc_cases_subject_list_only_empty_entries", oc.onlyBlankSubjects.Load())
+	r.Count("oidc_cases_subject_list_only_empty_entries_token_otherwise_valid", oc.onlyBlankSubjectsElseValid.Load())
+	r.Count("oidc_cases_alias_list_only_empty_entries", oc.onlyBlankAliases.Load())
+	r.Count("oidc_cases_empty_entry_among_other_entries", oc.blankAmongReal.Load())
+	r.Count("oidc_cases_config_has_space_entry", oc.spaceEntry.Load())
+	r.Count("oidc_cases_config_has_empty_non_nil_list", oc.emptyListCfg.Load())
+	r.Count("oidc_cases_undetermined_empty_claim_vs_empty_entry", oc.undetermined.Load())
 	var hits []string
 	for _, n := range []string{"s1", "s2"} {
 		hits = append(hits, fmt.Sprintf("%s=%d", n, e.issuers[n].hits.Load()))
